@@ -646,7 +646,8 @@ def m_slice_iter(c):
         return
     ln, l = len_lin(c, arr, loc)
     src = loc if (loc is not None and c.name.endswith("iter_mut")) else None
-    c.ret(Iter("slice", ln, arr.elem if not arr.elem.is_bot() else Top(), extra=("refmut", src) if src else "ref"), extras=((("rem",), l),))
+    c.ret(Iter("slice", ln, arr.elem if not arr.elem.is_bot() else Top(), extra=("refmut", src) if src else "ref",
+               cells=dict(arr.cells) if (arr.cells and not src) else None, pos=0), extras=((("rem",), l),))
 
 
 @model("std::iter::IntoIterator::into_iter")
@@ -667,7 +668,8 @@ def m_into_iter(c):
     if arr is not None:
         ln, l = len_lin(c, arr, aloc if aloc is not None else loc)
         byref = isinstance(v, Ref)
-        c.ret(Iter("slice", ln, arr.elem if not arr.elem.is_bot() else Top(), extra="ref" if byref else "val"), extras=((("rem",), l),))
+        c.ret(Iter("slice", ln, arr.elem if not arr.elem.is_bot() else Top(), extra="ref" if byref else "val",
+                   cells=dict(arr.cells) if arr.cells else None, pos=0), extras=((("rem",), l),))
         return
     c.ret(Iter("opaque"))
 
@@ -681,11 +683,11 @@ def m_take(c):
         return
     rem, reml, _ = iter_remaining(c, it, loc)
     if prove_le(c.st, nl, reml, n, rem):
-        c.ret(Iter("slice", n, it.elem, extra=it.extra), extras=((("rem",), nl),))
+        c.ret(Iter("slice", n, it.elem, extra=it.extra, cells=it.cells, pos=it.pos), extras=((("rem",), nl),))
     elif prove_le(c.st, reml, nl, rem, n):
-        c.ret(Iter("slice", rem, it.elem, extra=it.extra), extras=((("rem",), reml),))
+        c.ret(Iter("slice", rem, it.elem, extra=it.extra, cells=it.cells, pos=it.pos), extras=((("rem",), reml),))
     else:
-        c.ret(Iter("slice", usize(min(rem.lo, n.lo), min(rem.hi, n.hi)), it.elem, extra=it.extra))
+        c.ret(Iter("slice", usize(min(rem.lo, n.lo), min(rem.hi, n.hi)), it.elem, extra=it.extra, cells=it.cells, pos=it.pos))
 
 
 @model("std::iter::Iterator::skip")
@@ -699,7 +701,8 @@ def m_skip(c):
     if prove_le(c.st, nl, reml, n, rem):
         lo, hi = max(rem.lo - n.hi, 0), max(rem.hi - n.lo, 0)
         l = (reml - nl) if (reml is not None and nl is not None) else None
-        c.ret(Iter("slice", usize(lo, hi), it.elem, extra=it.extra), extras=((("rem",), l),))
+        np_ = it.pos + n.lo if (it.pos is not None and n.is_const()) else None
+        c.ret(Iter("slice", usize(lo, hi), it.elem, extra=it.extra, cells=it.cells if np_ is not None else None, pos=np_), extras=((("rem",), l),))
     else:
         c.ret(Iter("slice", usize(max(rem.lo - n.hi, 0), max(rem.hi - n.lo, 0)), it.elem, extra=it.extra))
 
@@ -845,7 +848,13 @@ def m_next(c):
                     c.ret(opt_none(), st=s)
                 else:
                     c.I.write_loc(s, rvar, Int.const(r0 - 1, 64, False))
-                    c.ret(opt_some(_item(c, s, it, elem, idx)), st=s)
+                    el = elem
+                    if it.pos is not None and it.cells:
+                        el = it.cells.get(it.pos, elem)
+                        cur = c.I.read_loc(s, loc)
+                        if isinstance(cur, Iter):
+                            s.cells[loc[0]] = set_at(s.cells[loc[0]], loc[1], Iter(cur.ikind, cur.remaining, cur.elem, cur.start, cur.end, cur.extra, cur.cells, cur.pos + 1))
+                    c.ret(opt_some(_item(c, s, it, el, idx)), st=s)
             except Infeasible:
                 pass
         return
@@ -865,6 +874,9 @@ def m_next(c):
         s1.cons.add_eq(LinForm.var((tmp, ())) - LinForm.var(rvar))
         c.I.write_loc(s1, rvar, usize(max(cur.lo - 1, 0), max(cur.hi - 1, 0)), LinForm.var((tmp, ())) - 1)
         s1.kill_cell(tmp)
+        cur = c.I.read_loc(s1, loc)
+        if isinstance(cur, Iter) and cur.pos is not None:
+            s1.cells[loc[0]] = set_at(s1.cells[loc[0]], loc[1], Iter(cur.ikind, cur.remaining, cur.elem, cur.start, cur.end, cur.extra, None, None))
         c.ret(opt_some(_item(c, s1, it, elem, 99)), st=s1)
     except Infeasible:
         pass
